@@ -79,6 +79,32 @@ func profileByName(name string) Profile {
 		p.Reopen = 25
 		p.Txs = 14
 		p.Segs = []int{150, 200, 300}
+	case "sparse":
+		// HintBPTSparseIdxMode, one bucket, unambiguous bucket+key concatenations (C02)
+		p.WKV = 1
+		p.Modes = []int{2}
+		p.Buckets = []string{"bk"}
+		p.Keys = []string{"a", "ab", "abc", "abd", "b", "ba", "k1", "k2", "z", "k10", "k3", "m"}
+		p.Segs = []int{150, 200, 250, 350}
+		p.Txs = 20
+		p.Reopen = 15
+		p.Oversize, p.DoneCalls = 0, 0
+		p.SparseReads = true
+	case "sparse2":
+		// many small transactions per segment: the on-disk transaction-id tree and the
+		// on-disk key tree of a sealed segment get inner nodes
+		p.WKV = 1
+		p.Modes = []int{2}
+		p.Buckets = []string{"bk"}
+		p.Keys = nil
+		for i := 0; i < 30; i++ {
+			p.Keys = append(p.Keys, fmt.Sprintf("k%02d", (i*17)%30))
+		}
+		p.Segs = []int{600, 1000, 1500}
+		p.Txs, p.OpsMin, p.OpsMax = 45, 1, 3
+		p.Reopen = 8
+		p.Oversize, p.DoneCalls, p.ReadOnly, p.Abort = 0, 0, 10, 5
+		p.SparseReads = true
 	case "bigtx":
 		// long write transactions interleaving several buckets with order-sensitive blind writes (C13)
 		p.WKV, p.WList, p.WSet, p.WZSet = 2, 3, 2, 3
